@@ -25,6 +25,58 @@
 
 uint32_t time_now(void) { return 0; }	/* util.c's ratelimit helper wants it; never called here */
 
+/* This file shares a translation unit with the library sources above (it needs fibre.c's statics). Its own
+ * file-scope identifiers are renamed so that a helper or static the library may grow (body, setup, probe, ...) can
+ * never collide with them. */
+#define Mo sc_Mo
+#define NF sc_NF
+#define acts sc_acts
+#define allow2 sc_allow2
+#define aq_limit sc_aq_limit
+#define base sc_base
+#define body sc_body
+#define build_configs sc_build_configs
+#define canon_list sc_canon_list
+#define cfgname sc_cfgname
+#define configs sc_configs
+#define cur_t32 sc_cur_t32
+#define curcfg sc_curcfg
+#define decode_next sc_decode_next
+#define deltas sc_deltas
+#define describe_action sc_describe_action
+#define dispatch_owner sc_dispatch_owner
+#define diverge sc_diverge
+#define do_action_impl sc_do_action_impl
+#define do_next sc_do_next
+#define dts sc_dts
+#define enabled_wrap sc_enabled_wrap
+#define encode_next sc_encode_next
+#define fibres sc_fibres
+#define fidx sc_fidx
+#define foreign_divergences sc_foreign_divergences
+#define m_del sc_m_del
+#define m_drain sc_m_drain
+#define m_in sc_m_in
+#define m_kill sc_m_kill
+#define m_run sc_m_run
+#define m_run1 sc_m_run1
+#define m_timeout sc_m_timeout
+#define model_action sc_model_action
+#define n_ops_kind sc_n_ops_kind
+#define nidx sc_nidx
+#define nops_total sc_nops_total
+#define op_apply sc_op_apply
+#define op_canon sc_op_canon
+#define op_describe sc_op_describe
+#define op_enabled sc_op_enabled
+#define probe sc_probe
+#define probe_depth sc_probe_depth
+#define probe_dt_all sc_probe_dt_all
+#define retname sc_retname
+#define setup sc_setup
+#define st_load sc_st_load
+#define st_save sc_st_save
+
 #ifndef PROP
 #error "compile with -DPROP=1, 2 or 3"
 #endif
